@@ -429,6 +429,23 @@ func (c *Ctx) runAccumulators() {
 		c.R.Add("ERRFLOW-E2", core.FuncName(f)+"|accumulated-errors-not-dropped", core.FuncName(f), p.Pos(f.Pos()), bad == "",
 			"where errors were accumulated with multierror.Append, a nil error is returned only where the accumulator was tested to be nil", ternary(bad == "", fmt.Sprintf("%d nil-error return(s), each after an accumulator-is-nil test or before any accumulation", nRet), bad))
 	}
+	// a constructor of a list of Funcs leaves its loop over the handed-in functions only when they are exhausted or with
+	// an error (`if err == nil { return nil, err }` hands back no list and no error after the first function)
+	for _, f := range p.ArgFuncs() {
+		if f.Parent() != nil || f.Object() == nil || !f.Object().Exported() || f.Signature.Recv() != nil {
+			continue
+		}
+		rs := f.Signature.Results()
+		if rs.Len() != 2 || core.TypeStr(rs.At(0).Type()) != "[]*Func" || !types.Identical(rs.At(1).Type(), types.Universe.Lookup("error").Type()) {
+			continue
+		}
+		for i, lp := range naturalLoops(f) {
+			w := c.silentLoopExit(lp.header, lp.body)
+			c.R.Func(core.FuncName(f))
+			c.R.Add("ERRFLOW-E2", fmt.Sprintf("%s|loop-left-only-with-an-error#%d", core.FuncName(f), i+1), core.FuncName(f), p.Pos(f.Pos()), w == "",
+				"the loop over the handed-in functions is left only when they are exhausted or with an error", ternary(w == "", "exhaustion or error exits only", w))
+		}
+	}
 }
 
 // filterHelperShape: h(fs, v, stop) returns stop exactly where a filter answered stop and !stop otherwise, every filter
